@@ -44,6 +44,12 @@ static Outcome runCase(const KV& c)
     }
     s->preSmoothingSteps(nu1);
     s->postSmoothingSteps(nu2);
+    // 'verbose' is a diagnostic option: a cycle must do the same arithmetic whatever is printed (stdout is discarded)
+    const int verbosity = (int)c.getI("verbose", 0);
+    s->verbose(verbosity);
+    if (verbosity > 0)
+        o.cls("verbose_" + std::to_string(verbosity));
+    StdoutSilencer quiet(verbosity > 0);
     GMGPolarVerifAccess::fullGridSmoothing(*s) = fgs != 0;
     auto& L      = GMGPolarVerifAccess::levels(*s);
     const int nl = GMGPolarVerifAccess::numberOfLevels(*s);
@@ -238,8 +244,15 @@ static KV genCase()
         s.R0         = s.Rmax * rpick({1e-3, 1e-2, 0.1}); // keeps the fixed-point bound meaningful on 257 radial nodes
     }
     s.via_cli = rint(0, 1);
+    if (s.nr_exp <= 5 && rint(0, 5) == 0) {
+        s.grid_kind = rint(1, 5); // a grid loaded from files
+        s.div       = 0;
+        if (s.max_levels > 3)
+            s.max_levels = -1;
+    }
     s.put(c);
     c.putI("cycle", rint(0, 2));
+    c.putI("verbose", rweighted({3, 1, 2}));
     c.putI("extrap", rint(0, 1));
     c.putI("fgs", rint(0, 1));
     c.putI("nu1", rint(0, 3));
